@@ -372,10 +372,9 @@ def r5_order(ctx):
     ctx.check('R5.order', f'{site(f, co)} baud rates descending', rev(co) and kwarg(co, 'key') is None, key(f, 'baud-desc'),
               'candidate baud rates are not explored from the highest down')
     # the tuples sorted are (baud_rate, offset)
+    # every definition of the explored list (the comprehension may stand alone, inside list(set(..)) or inside the sorted(..) call)
     src = [s for s in walk_no_nested(f.node) if isinstance(s, ast.Assign) and isinstance(s.targets[0], ast.Name) and
-           s.targets[0].id == outer.iter.id and not isinstance(s.value, ast.Call) or
-           (isinstance(s, ast.Assign) and isinstance(s.targets[0], ast.Name) and s.targets[0].id == outer.iter.id and
-            isinstance(s.value, ast.Call) and getattr(s.value.func, 'id', '') == 'list')]
+           s.targets[0].id == outer.iter.id]
     first = None
     for s in src:
         for n in ast.walk(s.value):
